@@ -186,6 +186,13 @@ def gen_history(rnd: random.Random, flavor: dict) -> dict:
             e1["bias"], e2["bias"] = 0.0, 1.0
             moves.append({"name": "xwrap", "criteria": "GrandCanonical", "probability": gen.rfloat(rnd, 0.5, 2.0, 3),
                           "move": {"type": "wrap", "items": [e1, e2]}})
+        elif not ecomp and rnd.random() < flavor.get("wrap_exch_insert", 0.06):
+            # two stand-alone exchange moves that both always insert, in one plain composite: two insertions per trial
+            # through ExchangeMove.__call__ itself (not through the composite exchange move's own loop)
+            e1, e2 = copy.deepcopy(exch), copy.deepcopy(exch)
+            e1["bias"], e2["bias"] = 1.0, 1.0
+            moves.append({"name": "xins", "criteria": "GrandCanonical", "probability": gen.rfloat(rnd, 0.5, 2.0, 3),
+                          "move": {"type": "wrap", "items": [e1, e2]}})
         elif not ecomp and rnd.random() < flavor.get("wrap_exch_free", 0.0):
             # both members decide independently: insert-then-delete and delete-then-delete can happen in ONE trial
             sc["free_exchange_composite"] = True
@@ -232,11 +239,13 @@ def gen_history(rnd: random.Random, flavor: dict) -> dict:
             params["pressure"] = gen.logu(rnd, 1e-4, 1e-1) if scale != "extreme" else gen.logu(rnd, 1e-6, 1e2)
             if rnd.random() < 0.15:
                 params["pressure"] = 0.0
+                if rnd.random() < 0.5:
+                    del params["pressure"]  # not handed over at all: the documented default (0) applies
             elif rnd.random() < 0.1:
                 params["pressure"] = -params["pressure"]  # tension
             if driver == "Isotension":
                 r = rnd.random()
-                P = params["pressure"]
+                P = params.get("pressure", 0.0)
                 if r < 0.35:
                     S = [[P, 0, 0], [0, P, 0], [0, 0, P]]  # purely hydrostatic
                 elif r < 0.5:
@@ -288,6 +297,8 @@ def gen_history(rnd: random.Random, flavor: dict) -> dict:
         _constructor_route(rnd, driver, moves)
     sc["moves"] = moves
     sc["params"] = params
+    if rnd.random() < flavor.get("predecessor", 0.1):
+        sc["predecessor"] = True
     nsteps = rnd.randint(1, flavor.get("steps_max", 10))
     sc["steps"] = [{"n": nsteps}] if rnd.random() < 0.7 else [{"n": (nsteps + 1) // 2}, {"n": nsteps // 2}]
     ntr = nsteps * params["max_cycles"]
@@ -551,6 +562,14 @@ class HistoryCampaign(Campaign):
         """-> (world, None), or (None, packed result) when the package refuses the generated (legal) deployment while
         it is being assembled."""
         try:
+            if sc.get("predecessor"):
+                # an earlier simulation of the same kind lived in this process; its user edited its arrays in place
+                # after it finished.  Nothing of that may reach the deployment under test.
+                from simkit.world import scribble
+
+                w0 = make_world({k: v for k, v in sc.items() if k not in ("files", "predecessor")}, (), self.world_opts)
+                scribble(w0)
+                w0.mc.close()
             return make_world(sc, mons, self.world_opts, disk), None
         except Exception as exc:  # noqa: BLE001
             from simkit.core import RunResult, classify_exception
